@@ -299,18 +299,18 @@ def euler_rotation_angles(matrix: Tensor, order: Optional[str] = None) -> Tensor
             "euler_rotation_angles() 'matrix' must be rotation matrix, i.e., matrix.det().abs() = 1"
         )
     if D == 2:
-        angles = torch.acos(matrix[..., 0, 0])
+        angles = torch.atan2(matrix[..., 1, 0], matrix[..., 0, 0]).unsqueeze(-1)
     else:
         # https://en.wikipedia.org/wiki/Euler_angles#Rotation_matrix
         angles = matrix.new_empty(matrix.shape[:-2] + (D,))
         if order == "XZX":
-            angles[..., 0] = torch.atan2(matrix[..., 0, 2], -matrix[..., 0, 1])
+            angles[..., 0] = torch.atan2(matrix[..., 2, 0], matrix[..., 1, 0])
             angles[..., 1] = torch.acos(matrix[..., 0, 0])
-            angles[..., 2] = torch.atan2(matrix[..., 2, 0], matrix[..., 1, 0])
+            angles[..., 2] = torch.atan2(matrix[..., 0, 2], -matrix[..., 0, 1])
         elif order == "ZXZ":
-            angles[..., 0] = torch.atan2(matrix[..., 2, 0], matrix[..., 2, 1])
+            angles[..., 0] = torch.atan2(matrix[..., 0, 2], -matrix[..., 1, 2])
             angles[..., 1] = torch.acos(matrix[..., 2, 2])
-            angles[..., 2] = torch.atan2(matrix[..., 0, 2], -matrix[..., 1, 2])
+            angles[..., 2] = torch.atan2(matrix[..., 2, 0], matrix[..., 2, 1])
         else:
             raise NotImplementedError(f"euler_rotation_angles() order={order!r}")
     return angles
